@@ -51,13 +51,15 @@ def delFirst {α} (p : α → Bool) : List α → List α
 
 /-! ### classes and instances -/
 
-/-- What the model needs to know about a software class.  `guarded`: does `receive` start with the
-`_can_perform_action` / `super().receive` test (table regenerated from the source, `Gen.Software`). -/
+/-- What the model needs to know about a software class.  `cid` is the Python class (the key of
+`SoftwareManager._software_class_to_name_map`); two classes may share a `name` (ARP / HostARP / RouterARP).
+Every shipped class starts `receive` with the running-guard (`_can_perform_action` / `super().receive`; Gen
+obligation `C13_gen_all_guarded`), so the model has no per-class guard flag. -/
 structure Cls where
+  cid : String := ""
   name : String
   port : Nat
   proto : Nat            -- 0 none, 1 tcp, 2 udp, 3 icmp
-  guarded : Bool
   ctorRuns : Bool := false   -- applications whose `__init__` ends with `self.run()` (web-browser, c2-server)
   baseRoutes : Bool := true  -- does `_init_request_manager` start from `super()._init_request_manager()`
   genericExecute : Bool := true  -- `execute` is Application's generic one (false: the class registers its own over it)
@@ -97,6 +99,7 @@ structure Node where
   portMap : List ((Nat × Nat) × Nat) := []      -- port_protocol_mapping : (port, protocol) → object
   svcRoutes : List (String × Nat) := []         -- node._service_request_manager : name → the object's manager
   appRoutes : List (String × Nat) := []         -- node._application_request_manager
+  classMap : List (String × String) := []       -- software_manager._software_class_to_name_map : class → name
   next : Nat := 0                                -- next fresh uid
 deriving Repr
 
@@ -154,8 +157,8 @@ def Hdr.dstPort : Hdr → Option Nat | .tcp p => some p | .udp p => some p | .ic
 def Hdr.sessionPort : Hdr → Nat | .tcp p => p | .udp p => p | .icmp => 0
 
 inductive Op
-  | installSvc (c : Cls) (listen : List Nat) (health : Health) (fixDur : Int)  -- SoftwareManager.install(cls, config)
-  | installApp (c : Cls) (listen : List Nat) (health : Health) (fixDur : Int)
+  | installSvc (c : Cls) (cfg : Bool) (listen : List Nat) (health : Health) (fixDur : Int)  -- SoftwareManager.install(cls, config);
+  | installApp (c : Cls) (cfg : Bool) (listen : List Nat) (health : Health) (fixDur : Int)  -- `cfg` = a software_config is passed
   | uninstall (name : String)                       -- SoftwareManager.uninstall(name)
   | reqInstall (name : String) (c : Option (Cls × List Nat))   -- […,'software_manager','application','install',name];
                                                     -- `c` = Application._registry.get(name) and its default listen_on_ports
@@ -169,6 +172,7 @@ inductive Op
   | reqStartup | reqShutdown                        -- […,'startup'] / […,'shutdown']
   | deliver (port proto : Nat) (scan : Bool)        -- SoftwareManager.receive_payload_from_session_manager
   | frame (h : Hdr) (scan : Bool)                   -- HostNode.receive_frame
+  | send (u : Nat)                                  -- IOSoftware.send(payload, …) called on the object
 deriving Repr
 
 inductive Out
@@ -268,9 +272,32 @@ def tickAllOk (n : Node) : Bool :=
 
 /-! ### install / uninstall -/
 
-/-- `SoftwareManager.install(cls, config)` for a Service subclass.
-(The "already installed" test reads `_software_class_to_name_map`, which nothing ever writes: it never fires.) -/
-def installSvc (n : Node) (c : Cls) (listen : List Nat) (health : Health) (fixDur : Int) : Node :=
+def nameOf (n : Node) (u : Nat) : Option String := (n.metaOf u).map (·.cls.name)
+
+/-- `SoftwareManager.uninstall(name)`.  `none` = `remove_request` raises `RuntimeError` (route not registered). -/
+def uninstall (n : Node) (name : String) : Option Node :=
+  match dget name n.software with
+  | none => some n
+  | some u =>
+    let pm := delFirst (fun e => n.nameOf e.2 == some name) n.portMap
+    let cm := delFirst (fun e => e.2 == name) n.classMap
+    match n.findSvc u with
+    | some _ =>
+      if dhas name n.svcRoutes then
+        some { n with software := ddel name n.software, services := n.services.filter (· != u),
+                      svcRoutes := ddel name n.svcRoutes, portMap := pm, classMap := cm }
+      else none
+    | none =>
+      match n.findApp u with
+      | some _ =>
+        if dhas name n.appRoutes then
+          some { n with software := ddel name n.software, applications := n.applications.filter (· != u),
+                        appRoutes := ddel name n.appRoutes, portMap := pm, classMap := cm }
+        else none
+      | none => some { n with software := ddel name n.software, portMap := pm, classMap := cm }
+
+/-- the registry writes of `SoftwareManager.install` for a freshly constructed Service object -/
+def registerSvc (n : Node) (c : Cls) (listen : List Nat) (health : Health) (fixDur : Int) : Node :=
   let u := n.next
   let s0 : Svc := { sw := { actual := health, fixDur := fixDur } }
   let s1 := (s0.start n.isOn).1
@@ -280,11 +307,12 @@ def installSvc (n : Node) (c : Cls) (listen : List Nat) (health : Health) (fixDu
     services := n.services ++ [u],
     svcRoutes := dset c.name u n.svcRoutes,
     software := dset c.name u n.software,
+    classMap := dset c.cid c.name n.classMap,
     portMap := dset (c.port, c.proto) u n.portMap }
 
-/-- `SoftwareManager.install(cls, config)` for an Application subclass: `install()` puts it in INSTALLING with
-the countdown set, then the last statement forces CLOSED (the countdown stays). -/
-def installApp (n : Node) (c : Cls) (listen : List Nat) (health : Health) (fixDur : Int) : Node :=
+/-- … for a freshly constructed Application object: `install()` puts it in INSTALLING with the countdown set, then
+the last statement forces CLOSED (the countdown stays). -/
+def registerApp (n : Node) (c : Cls) (listen : List Nat) (health : Health) (fixDur : Int) : Node :=
   let u := n.next
   let a0 : App := { sw := { actual := health, fixDur := fixDur } }
   let a1 := (if c.ctorRuns then a0.run n.isOn else a0).applyAll [.install, .forceClosed]
@@ -294,30 +322,27 @@ def installApp (n : Node) (c : Cls) (listen : List Nat) (health : Health) (fixDu
     applications := n.applications ++ [u],
     appRoutes := dset c.name u n.appRoutes,
     software := dset c.name u n.software,
+    classMap := dset c.cid c.name n.classMap,
     portMap := dset (c.port, c.proto) u n.portMap }
 
-def nameOf (n : Node) (u : Nat) : Option String := (n.metaOf u).map (·.cls.name)
+/-- the "already installed" guard of `SoftwareManager.install`:
+`software_class in self._software_class_to_name_map and software_config is None` -/
+def installRefused (n : Node) (c : Cls) (cfg : Bool) : Bool := dhas c.cid n.classMap && !cfg
 
-/-- `SoftwareManager.uninstall(name)`.  `none` = `remove_request` raises `RuntimeError` (route not registered). -/
-def uninstall (n : Node) (name : String) : Option Node :=
-  match dget name n.software with
-  | none => some n
-  | some u =>
-    let pm := delFirst (fun e => n.nameOf e.2 == some name) n.portMap
-    match n.findSvc u with
-    | some _ =>
-      if dhas name n.svcRoutes then
-        some { n with software := ddel name n.software, services := n.services.filter (· != u),
-                      svcRoutes := ddel name n.svcRoutes, portMap := pm }
-      else none
-    | none =>
-      match n.findApp u with
-      | some _ =>
-        if dhas name n.appRoutes then
-          some { n with software := ddel name n.software, applications := n.applications.filter (· != u),
-                        appRoutes := ddel name n.appRoutes, portMap := pm }
-        else none
-      | none => some { n with software := ddel name n.software, portMap := pm }
+/-- `if software.name in self.software: self.uninstall(software.name)` — a (configured) install of a name that is
+installed replaces the installed instance.  `none` = the nested `uninstall` raises. -/
+def evict (n : Node) (name : String) : Option Node :=
+  if dhas name n.software then n.uninstall name else some n
+
+/-- `SoftwareManager.install(cls, config)` for a Service subclass.  `none` = raises. -/
+def installSvc (n : Node) (c : Cls) (cfg : Bool) (listen : List Nat) (health : Health) (fixDur : Int) : Option Node :=
+  if n.installRefused c cfg then some n
+  else (n.evict c.name).map (fun n1 => n1.registerSvc c listen health fixDur)
+
+/-- `SoftwareManager.install(cls, config)` for an Application subclass. -/
+def installApp (n : Node) (c : Cls) (cfg : Bool) (listen : List Nat) (health : Health) (fixDur : Int) : Option Node :=
+  if n.installRefused c cfg then some n
+  else (n.evict c.name).map (fun n1 => n1.registerApp c listen health fixDur)
 
 /-! ### ports and payloads -/
 
@@ -330,12 +355,8 @@ def openPorts (n : Node) : List Nat :=
       | none => []
     else [])
 
-/-- would `receive` of object `u` get past its running-guard (`_can_perform_action`)?  Classes without the
-guard process the payload whatever their state. -/
-def handles (n : Node) (u : Nat) : Bool :=
-  match n.metaOf u with
-  | some m => if m.cls.guarded then n.isOn && n.isRunning u else true
-  | none => false
+/-- does `receive` of object `u` get past its running-guard (`_can_perform_action`: node ON and the object RUNNING)? -/
+def handles (n : Node) (u : Nat) : Bool := n.isOn && n.isRunning u
 
 /-- `SoftwareManager.receive_payload_from_session_manager`: the objects whose `receive` is invoked, in order.
 `none` = `self.software.get("nmap").receive` on a node without nmap (`AttributeError`). -/
@@ -396,8 +417,14 @@ def appReqOut (n : Node) (name : String) (r : AppReq) : Out :=
 
 def step (n : Node) (op : Op) : Node × Out :=
   match op with
-  | .installSvc c l h f => (n.installSvc c l h f, .done)
-  | .installApp c l h f => (n.installApp c l h f, .done)
+  | .installSvc c cfg l h f =>
+    match n.installSvc c cfg l h f with
+    | some n' => (n', .done)
+    | none => (n, .raised)
+  | .installApp c cfg l h f =>
+    match n.installApp c cfg l h f with
+    | some n' => (n', .done)
+    | none => (n, .raised)
   | .uninstall name =>
     match n.uninstall name with
     | some n' => (n', .done)
@@ -409,10 +436,16 @@ def step (n : Node) (op : Op) : Node × Out :=
       match c with
       | none => (n, .status .failure)                              -- "unknown application"
       | some (c, listen) =>
-        -- install(cls); then `self.applications[uuid] = inst`, the route again (both already there), `inst.install()`
-        let n1 := n.installApp c listen .good 2
-        let n2 := { n1 with apps := n1.apps.map (fun i => { i with a := if i.m.uid = n.next then i.a.install else i.a }) }
-        (n2, .status (Status.ofBool (dhas name n2.software)))
+        -- install(cls) without a config; then `software.get(name)` (`None.uuid` raises when the install was refused
+        -- or registered another name), `self.applications[uuid] = inst`, the route again (both already there),
+        -- `inst.install()`
+        match n.installApp c false listen .good 2 with
+        | none => (n, .raised)
+        | some n1 =>
+          if dget name n1.software = some n.next ∧ n1.next = n.next + 1 then
+            let n2 := { n1 with apps := n1.apps.map (fun i => { i with a := if i.m.uid = n.next then i.a.install else i.a }) }
+            (n2, .status (Status.ofBool (dhas name n2.software)))
+          else (n1, .raised)
   | .reqUninstall name =>
     if !n.isOn then (n, .status .failure)
     else if !dhas name n.software then (n, .status .failure)
@@ -459,6 +492,11 @@ def step (n : Node) (op : Op) : Node × Out :=
   | .frame h scan =>
     if n.frameAccepted h scan then (n, n.deliverOut h.sessionPort h.proto scan)
     else (n, .ignored)
+  | .send u =>
+    -- `if not self._can_perform_action(): return False`, else the payload is handed to the session manager
+    match n.metaOf u with
+    | some _ => (n, .ret (n.handles u))
+    | none => (n, .raised)
 
 def run (n : Node) : List Op → Node
   | [] => n
